@@ -185,9 +185,9 @@ func evalC15(c *Ctx, cs *Case) {
 			sp.Heading = 0
 		}
 		doc := gen.Spell(f, sp)
-		// massive mode is observed for bullet-root spellings without a leading blank line
-		// (heading roots in massive mode are a known finding of C10)
-		massive := sp.Heading == 0 && !sp.LeadBlank
+		// massive mode is observed for every spelling (heading roots and leading blank lines are
+		// handled by massive mode since fixes 9345a5a and 75686c8)
+		massive := true
 		if massive {
 			cs.SetDoc(doc)
 			cs.Entry = "massive-json"
